@@ -416,6 +416,163 @@ theorem parent_request_witness :
         (codeSample ⟨.repaired, .repaired, .repaired⟩ [] wPrep wParentData) = false := by
   refine ⟨by decide +kernel, by decide +kernel, by decide +kernel⟩
 
+/-! ### "headers that curl / requests add on their own": the code's table against the specification's own statement
+
+  `Clients` is what the harness measures on the real `requests` transport and the real curl; `mayOmit c o kv` is the
+  specification's statement of when a field of the original may be missing from the command (curl sends the same
+  field by itself, or it is a transport artefact); `specAuto c o` is the same as a table; `reproducesOnWire` is the
+  property stated on everything curl sends, its own fields included.  None of them reads `get_excluded_headers()`. -/
+
+/-- The specification's table says exactly: the field may be missing iff curl sends the same one by itself or it is a
+    transport artefact. -/
+theorem spec_table_is_may_omit (c : Clients) (o : Original) (kv : Str × Str) :
+    isAuto (specAuto c o) kv = mayOmit c o kv :=
+  specAuto_isAuto c o kv
+
+/-- **The table `get_excluded_headers()` builds hides only automatic fields** — for every list of defaults
+    `requests` may report, every `USER_AGENT` and label name, every pair of clients that agrees with them
+    (`ClientsAgree`, measured on every run), every request and every header name and value. -/
+theorem excluded_only_automatic (c : Clients) (defaults : List (Str × Str)) (ua h : Str)
+    (hag : ClientsAgree c defaults ua h) (o : Original) (k v : Str)
+    (hhid : isAutoValued (excludedTable defaults ua h) k v = true) : mayOmit c o (k, v) = true := by
+  obtain ⟨hdef, hua, hspell, hid⟩ := hag
+  obtain ⟨e, he, hname, hval⟩ := (isAutoValued_iff _ k v).1 hhid
+  have hart : isArtefact c (e.1, v) = true → mayOmit c o (k, v) = true := by
+    intro ha
+    rw [← mayOmit_congr c o e.1 k v hname]
+    simp [mayOmit, ha]
+  rcases excludedTable_entry defaults ua h e hspell he with ⟨_, hn⟩ | rfl | ⟨kv, hkv, rfl, hnu⟩
+  · apply hart
+    rcases hn with hn | hn | hn
+    · simp [isArtefact, framingNames, hn, sameName]
+    · simp [isArtefact, framingNames, hn, sameName]
+    · simp only [isArtefact, hn, hid, Bool.or_true, Bool.true_or]
+  · apply hart
+    have : v = ua := by
+      rcases hval with hval | hval
+      · simp at hval
+      · simpa using hval.symm
+    simpa [this] using hua
+  · apply hart
+    have : v = kv.2 := by
+      rcases hval with hval | hval
+      · simp at hval
+      · simpa using hval.symm
+    simpa [this] using hdef kv hkv hnu
+
+/-- The decidable test the harness applies to the table of the tree under test is sound: a table that passes it
+    hides only automatic fields, for every request. -/
+theorem table_within_spec_sound (c : Clients) (tbl : Table) (hw : tableWithin c tbl = true) (o : Original) (k v : Str)
+    (hhid : isAutoValued tbl k v = true) : mayOmit c o (k, v) = true := by
+  obtain ⟨e, he, hname, hval⟩ := (isAutoValued_iff _ k v).1 hhid
+  have hent := List.all_eq_true.1 hw e he
+  rw [← mayOmit_congr c o e.1 k v hname]
+  rcases hval with hval | hval
+  · simp only [hval, Bool.or_eq_true] at hent
+    simp only [mayOmit, isArtefact, Bool.or_eq_true]
+    right; left; exact hent
+  · simp only [hval] at hent
+    exact staticAuto_sub c o e.1 v hent
+
+/-- **Full statement against the independent specification, repaired code with its own table.** For every pair of
+    clients, every defaults list / `USER_AGENT` / label name they agree with, and every well-formed prepared request:
+    the command sends method, URL, body, only fields of the original, and every field of the original except those
+    curl sends by itself with the same value or that are transport artefacts. -/
+theorem reproduces_repaired_clients (c : Clients) (defaults : List (Str × Str)) (ua h : Str)
+    (hag : ClientsAgree c defaults ua h) (r : Req) (hwf : wf r = true) :
+    reproduces (specAuto c (original r)) (original r)
+      (generate ⟨.repaired, .repaired, .repaired⟩ (excludedTable defaults ua h) r) = true := by
+  apply reproduces_repaired_tables _ _ r hwf
+  intro kv _ hhid
+  rw [spec_table_is_may_omit]
+  exact excluded_only_automatic c defaults ua h hag (original r) kv.1 kv.2 hhid
+
+/-- … and for any table that passes the harness' test (the table read from the tree under test). -/
+theorem reproduces_repaired_within (c : Clients) (tbl : Table) (hw : tableWithin c tbl = true) (r : Req)
+    (hwf : wf r = true) :
+    reproduces (specAuto c (original r)) (original r) (generate ⟨.repaired, .repaired, .repaired⟩ tbl r) = true := by
+  apply reproduces_repaired_tables _ _ r hwf
+  intro kv _ hhid
+  rw [spec_table_is_may_omit]
+  exact table_within_spec_sound c tbl hw (original r) kv.1 kv.2 hhid
+
+/-- What curl sends in full for the command: its own fields (`Host`, `User-Agent`, `Accept`, with data
+    `Content-Length` / `Content-Type`) unless the text of a kept header addresses the same name, then the kept
+    headers it does not discard. -/
+theorem curl_sends_for_command (c : Clients) (vs : Variants) (tbl : Table) (r : Req) (hwf : wf r = true) :
+    curlWire c (argvOf vs tbl r) =
+      if vs.dataAt = .asFound ∧ bodyStartsAt (bodyOf r.body) = true then none
+      else some (wireOf c ((filterHeaders vs.filter tbl r.known r.headers).map fun kv => headerArg vs.emptyHeader kv.1 kv.2)
+        r.url (bodyOf r.body) ((filterHeaders vs.filter tbl r.known r.headers).filterMap (sentOf vs.emptyHeader))) := by
+  unfold curlWire
+  rw [curlSem_argvOf vs tbl r hwf, headerTexts_argvOf vs tbl r hwf]
+  by_cases hc : vs.dataAt = .asFound ∧ bodyStartsAt (bodyOf r.body) = true
+  · simp only [hc, and_self, if_true]
+  · simp only [hc, if_false]
+
+/-- The verdict of the table form of the property (with the specification's table) is a verdict about the wire: if
+    it accepts a command `generate` prints for a request with one field per name, every field of the original is
+    among the fields curl really sends — its own included — or is a transport artefact. -/
+theorem table_verdict_is_wire_verdict (c : Clients) (vd vf : Variant) (tbl : Table) (r : Req) (hwf : wf r = true)
+    (hu : namesUnique r.headers = true)
+    (h : reproduces (specAuto c (original r)) (original r) (generate ⟨.repaired, vd, vf⟩ tbl r) = true) :
+    reproducesOnWire c (original r) (generate ⟨.repaired, vd, vf⟩ tbl r) = true :=
+  onWire_of_table c vd vf tbl r hwf hu h
+
+/-- **Full statement on the wire.** -/
+theorem reproduces_on_wire_repaired (c : Clients) (defaults : List (Str × Str)) (ua h : Str)
+    (hag : ClientsAgree c defaults ua h) (r : Req) (hwf : wf r = true) (hu : namesUnique r.headers = true) :
+    reproducesOnWire c (original r) (generate ⟨.repaired, .repaired, .repaired⟩ (excludedTable defaults ua h) r) = true :=
+  onWire_of_table c _ _ _ r hwf hu (reproduces_repaired_clients c defaults ua h hag r hwf)
+
+/-- **Necessity: a table must not hide more.** Whatever table the code uses: a header the case did not generate,
+    which the table hides (its name is listed as "never shown", or with this value) although it is not automatic, is
+    never reproduced — for every variant of the printing and every such request. (The shape of listing
+    `Accept-Encoding` as never shown: an explicit `Accept-Encoding: identity` disappears from the command.) -/
+theorem overbroad_table_lost (ve vd : Variant) (tbl auto : Table) (r : Req) (hwf : wf r = true) (kv : Str × Str)
+    (hmem : kv ∈ r.headers) (hhid : isAutoValued tbl kv.1 kv.2 = true) (hk : r.known.contains kv.1 = false)
+    (hna : isAuto auto kv = false) :
+    reproduces auto (original r) (generate ⟨ve, vd, .repaired⟩ tbl r) = false := by
+  rw [reproduces_iff _ tbl auto r hwf]
+  have hall : ∀ kv ∈ r.headers, nameOk kv.1 = true ∧ valueOk kv.2 = true := by
+    simp only [wf, Bool.and_eq_true, List.all_eq_true] at hwf
+    exact hwf.2
+  have hkept : ∀ kv ∈ filterHeaders .repaired tbl r.known r.headers, nameOk kv.1 = true ∧ valueOk kv.2 = true :=
+    fun kv hkv => hall kv (List.mem_filter.1 hkv).1
+  have hk' : ¬ kv.1 ∈ r.known := by simpa using hk
+  have hnk : ¬ kv ∈ filterHeaders .repaired tbl r.known r.headers := by
+    simp [filterHeaders, List.mem_filter, hhid, hk']
+  have hnot : ¬ kv ∈ (filterHeaders .repaired tbl r.known r.headers).filterMap (sentOf ve) := by
+    rw [sent_eq ve _ hkept]
+    cases ve with
+    | repaired => exact hnk
+    | asFound => exact fun h => hnk (List.mem_filter.1 h).1
+  have : headersOk auto r.headers ((filterHeaders .repaired tbl r.known r.headers).filterMap (sentOf ve)) = false := by
+    simp only [headersOk, Bool.and_eq_false_iff]
+    right
+    rw [Bool.eq_false_iff]
+    intro hc
+    have := List.all_eq_true.1 hc kv hmem
+    simp only [hna, Bool.false_or, List.contains_eq_mem, decide_eq_true_eq] at this
+    exact hnot this
+  simp [this]
+
+/-- Witness (kernel-checked), with the clients as measured (requests 2.x: `Accept-Encoding: gzip, deflate`; curl
+    7.88.1): for a request with an explicit `Accept-Encoding: identity` the table the code builds yields a command
+    that reproduces it — in table form and on the wire —, the same table with `Accept-Encoding` listed as never
+    shown yields one that does not; the harness' test tells the two tables apart. -/
+theorem never_shown_entry_witness :
+    reproduces (specAuto wClients (original wIdentityReq)) (original wIdentityReq)
+        (generate ⟨.repaired, .repaired, .repaired⟩ wTable wIdentityReq) = true
+    ∧ reproducesOnWire wClients (original wIdentityReq)
+        (generate ⟨.repaired, .repaired, .repaired⟩ wTable wIdentityReq) = true
+    ∧ reproduces (specAuto wClients (original wIdentityReq)) (original wIdentityReq)
+        (generate ⟨.repaired, .repaired, .repaired⟩ wTableNeverShown wIdentityReq) = false
+    ∧ reproducesOnWire wClients (original wIdentityReq)
+        (generate ⟨.repaired, .repaired, .repaired⟩ wTableNeverShown wIdentityReq) = false
+    ∧ tableWithin wClients wTable = true ∧ tableWithin wClients wTableNeverShown = false := by
+  refine ⟨by decide +kernel, by decide +kernel, by decide +kernel, by decide +kernel, by decide +kernel, by decide +kernel⟩
+
 /-! ### the report: `format_failures` prints the command on an indented line -/
 
 /-- The failure report shows the command after an indentation of blanks (`"Reproduce with: \n\n    {curl}"`): a
@@ -502,5 +659,36 @@ example : findFailureData (run (fun fd => fd) [.recordCase none ⟨"P".toList, 0
     ∧ findFailureData (run (fun fd => fd) [.recordCase none ⟨"P".toList, 0⟩, .recordRequest "P".toList wParentReq])
         "P".toList (some []) = .error .assertionError := by
   refine ⟨by decide +kernel, by decide +kernel⟩
+
+/-- the table theorems: the measured clients agree with the measured inputs of `get_excluded_headers()`, the table
+    built from them hides the automatic `Accept-Encoding` and not an explicit one, and passes the harness' test -/
+example : ClientsAgree wClients wDefaults "schemathesis/dev".toList wCaseId := by
+  refine ⟨by decide, by decide, by decide, by decide⟩
+example : isAutoValued wTable "accept-encoding".toList "gzip, deflate".toList = true
+    ∧ isAutoValued wTable "Accept-Encoding".toList "identity".toList = false
+    ∧ wTable.length = 7 ∧ tableOutside wClients wTableNeverShown = [("Accept-Encoding".toList, none)] := by
+  refine ⟨by decide +kernel, by decide +kernel, by decide +kernel, by decide +kernel⟩
+
+/-- … of `reproduces_repaired_clients` / `reproduces_on_wire_repaired` / `table_verdict_is_wire_verdict`: a well-formed
+    request with one field per name, automatic and explicit fields side by side -/
+example : wf wIdentityReq = true ∧ namesUnique wIdentityReq.headers = true := by
+  refine ⟨by decide +kernel, by decide +kernel⟩
+
+/-- … of `overbroad_table_lost`: the explicit field is hidden by the over-broad table, not generated by the case, and
+    not automatic for the specification -/
+example : (("Accept-Encoding".toList, "identity".toList) : Str × Str) ∈ wIdentityReq.headers
+    ∧ isAutoValued wTableNeverShown "Accept-Encoding".toList "identity".toList = true
+    ∧ wIdentityReq.known.contains "Accept-Encoding".toList = false
+    ∧ isAuto (specAuto wClients (original wIdentityReq)) ("Accept-Encoding".toList, "identity".toList) = false := by
+  refine ⟨by decide, by decide +kernel, by decide, by decide +kernel⟩
+
+/-- … of `curl_sends_for_command`: for that request curl sends its own `Host`, `User-Agent`, `Accept`,
+    `Content-Length`, then the kept fields; its own `Content-Type` is left out because a kept field addresses the name -/
+example : curlWire wClients (argvOf ⟨.repaired, .repaired, .repaired⟩ wTable wIdentityReq)
+    = some [("Host".toList, "127.0.0.1:8080".toList), ("User-Agent".toList, "curl/7.88.1".toList),
+            ("Accept".toList, "*/*".toList), ("Content-Length".toList, "10".toList),
+            ("X-Tenant".toList, "blue team".toList), ("Accept-Encoding".toList, "identity".toList),
+            ("Content-Type".toList, "text/plain".toList)] := by
+  decide +kernel
 
 end SV.Props.C09
